@@ -19,7 +19,19 @@ def _c02(tier, seed):
     return ps + families.canaries_eq(ps)
 
 
+def _c03(tier, seed):
+    ps = families.c03(tier, seed)
+    return ps + families.canaries_ord(ps)
+
+
 PROPS = {
+    "C03": {
+        "family": _c03,
+        "bounds": {"quick": "structs named/tuple n<=3 all 3^n {none,ignore,method}; rank permutations n=2,3 x 3 value schemes x 4 spellings; enums 1-3 variants",
+                   "thorough": "n<=4; +100 sampled enums 3-5 variants"},
+        "trusted": [], "assumptions": [],
+        "explanation": "generated Ord::cmp / PartialOrd::partial_cmp verified verbatim against the rank-ordered lexicographic oracle",
+    },
     "C02": {
         "family": _c02,
         "bounds": {"quick": "structs named/tuple n<=3 all 3^n {none,ignore,method} assignments; enums 1-3 variants over {unit,tuple1,tuple2,named2}",
